@@ -470,3 +470,422 @@ Proof.
     unfold has. rewrite Hd. destruct (N.eqb_spec id exf); [eauto|]. rewrite F3b by exact Hle. eauto.
   - intros id Hid. apply Hop' in Hid. rewrite Hhd'. exact (proj2 Hid).
 Qed.
+
+(* ---------- append batches ---------- *)
+Lemma file_eta f : mkFile (fbytes f) (fdur f) = f.
+Proof. destruct f; reflexivity. Qed.
+
+Lemma f_write_write f a b : f_write (f_write f a) b = f_write f (a ++ b).
+Proof. unfold f_write. cbn [fbytes fdur]. rewrite app_assoc. reflexivity. Qed.
+
+Lemma dset_dset id x y l : dset id x (dset id y l) = dset id x l.
+Proof.
+  induction l as [|[k g] l IH]; cbn [dset].
+  - rewrite N.eqb_refl. reflexivity.
+  - destruct (N.eqb_spec k id) as [->|Ne].
+    + cbn [dset]. rewrite N.eqb_refl. reflexivity.
+    + destruct (N.ltb_spec id k) as [L|L]; cbn [dset].
+      * rewrite N.eqb_refl. reflexivity.
+      * destruct (N.eqb_spec k id); [contradiction|]. destruct (N.ltb_spec id k); [lia|]. rewrite IH. reflexivity.
+Qed.
+
+Lemma entries_of_app b : forall c, (length b mod 6 = 0)%nat -> entries_of (b ++ c) = entries_of b ++ entries_of c.
+Proof.
+  remember (length b) as n eqn:Hn. revert b Hn. induction n as [n IH] using lt_wf_ind. intros b Hn c Hm.
+  destruct b as [|x1 [|x2 [|x3 [|x4 [|x5 [|x6 r]]]]]]; try reflexivity;
+    try (cbn [length] in Hn; subst n; cbn in Hm; discriminate).
+  cbn [app entries_of]. f_equal. cbn [length] in Hn. apply (IH (length r)); [lia|reflexivity|].
+  subst n. replace (S (S (S (S (S (S (length r))))))) with (length r + 1 * 6)%nat in Hm by lia.
+  rewrite Nat.mod_add in Hm by lia. exact Hm.
+Qed.
+
+(* committing a batch and then a second one = committing their concatenation *)
+Lemma commit_commit t b t1 b1 d2 i2 c2 :
+  commit t b = Ok (t1, b1) ->
+  commit t1 (mkB d2 i2 c2) = commit t (mkB (b_data b ++ d2) (b_index b ++ i2) c2).
+Proof.
+  unfold commit, data_upd. destruct (dget (t_head t) (t_data t)) as [hf|] eqn:Hf; [|discriminate].
+  intros E. inversion E; subst t1 b1; clear E.
+  cbn [w_counters w_index w_data t_head t_data t_index t_offset t_hidden t_tail t_headbytes b_data b_index b_cur].
+  rewrite dget_dset_same. unfold w_counters, w_index, w_data.
+  cbn [t_items t_offset t_hidden t_head t_tail t_headbytes t_ver t_open t_index t_data t_mcur t_msyn b_data b_index b_cur].
+  rewrite dset_dset, !f_write_write, app_length, Nat2N.inj_add, N.add_assoc. reflexivity.
+Qed.
+
+Lemma nsynced_le maxsz t : IdxInv maxsz t -> (nsynced t <= length (rest_of t))%nat /\ entries_of (fbytes (t_index t)) <> [] /\ (length (fbytes (t_index t)) mod 6 = 0)%nat.
+Proof.
+  intros HI. pose proof HI as HI0. unfold IdxInv, core, IdxInvC in HI0. inv_destruct HI0.
+  pose proof (rest_of_inv t rest Hb Hwf Ht Ho) as Hr. pose proof (idx_size _ _ _ _ Hb) as Hsz.
+  unfold nsynced. rewrite Hr. unfold flen in *. split; [lia|]. split.
+  - unfold rest_of in Hr. rewrite Hb. cbn [map concat]. unfold enc_entry at 1. cbn [app entries_of]. discriminate.
+  - rewrite Hsz. rewrite Nat.mul_comm. apply Nat.mod_mul. lia.
+Qed.
+
+Lemma entries_of_one e : entry_wf e = true -> entries_of (enc_entry e) = [e].
+Proof.
+  intros H. pose proof (entries_of_enc_app [e] [] ltac:(cbn [forallb]; rewrite H; reflexivity)) as P.
+  cbn [map concat] in P. rewrite !app_nil_r in P. exact P.
+Qed.
+
+(* one more item in the current head file *)
+Lemma dinv_commit_one maxsz t1 data e c t2 b2 :
+  DInv maxsz t1 -> commit t1 (mkB data (enc_entry e) c) = Ok (t2, b2) -> IdxInv maxsz t2 ->
+  entry_wf e = true -> efile e = t_head t1 -> eoff e = t_headbytes t1 + N.of_nat (length data) ->
+  DInv maxsz t2.
+Proof.
+  intros (HI & DG & DH & DI & DJ & DL & DN & DO & DP) E HI2 Hwe Hef Heo.
+  destruct DJ as [hf [Hf Hsz]].
+  unfold commit, data_upd in E. rewrite Hf in E. cbn [b_data b_index b_cur] in E. inversion E; subst t2 b2; clear E.
+  set (t2 := w_counters _ _ _ _ _ _ _) in *.
+  assert (Hd : forall id, dget id (t_data t2) = if id =? t_head t1 then Some (f_write hf data) else dget id (t_data t1)).
+  { intros id. subst t2. cbn [w_counters w_index w_data t_data]. apply dget_dset. }
+  destruct (nsynced_le _ _ HI) as (Hns & Hne & Hm6).
+  assert (Hr : rest_of t2 = rest_of t1 ++ [e]).
+  { unfold rest_of. subst t2. cbn [w_counters w_index w_data t_index f_write fbytes].
+    rewrite entries_of_app by exact Hm6. rewrite entries_of_one by exact Hwe.
+    destruct (entries_of (fbytes (t_index t1))); [congruence|reflexivity]. }
+  assert (Hsy : synced_of t2 = synced_of t1).
+  { unfold synced_of. rewrite Hr. change (nsynced t2) with (nsynced t1). rewrite firstn_app.
+    replace (nsynced t1 - length (rest_of t1))%nat with 0%nat by lia. cbn [firstn]. apply app_nil_r. }
+  assert (Hnsz : fsize (f_write hf data) = eoff e).
+  { unfold fsize, flen, f_write. cbn [fbytes]. rewrite app_length, Heo. unfold fsize, flen in Hsz. lia. }
+  refine (conj HI2 (conj _ (conj _ (conj _ (conj _ (conj _ (conj _ (conj _ _)))))))).
+  - intros x Hx. rewrite Hr in Hx. apply in_app_or in Hx. rewrite Hd. destruct Hx as [Hx|[<-|[]]].
+    + destruct (DG x Hx) as [f [Hfx Hle]]. destruct (N.eqb_spec (efile x) (t_head t1)) as [Q|Q]; [|eauto].
+      exists (f_write hf data). split; [reflexivity|]. rewrite Q in Hfx. assert (f = hf) by congruence. subst f.
+      unfold fsize, flen, f_write in *. cbn [fbytes]. rewrite app_length. lia.
+    + rewrite Hef, N.eqb_refl. exists (f_write hf data). split; [reflexivity|]. rewrite Hnsz. lia.
+  - intros id f Hg Hne'. change (t_head t2) with (t_head t1) in Hne'. rewrite Hd in Hg.
+    destruct (N.eqb_spec id (t_head t1)); [contradiction|]. apply (DH _ _ Hg Hne').
+  - intros id f Hg. rewrite Hd in Hg. destruct (N.eqb_spec id (t_head t1)).
+    + injection Hg as <-. pose proof (DI _ _ Hf). unfold f_write, flen in *. cbn [fdur fbytes]. rewrite app_length. lia.
+    + apply (DI _ _ Hg).
+  - exists (f_write hf data). change (t_head t2) with (t_head t1). rewrite Hd, N.eqb_refl. split; [reflexivity|].
+    rewrite Hnsz, Heo. reflexivity.
+  - intros x Hx. rewrite Hsy in Hx. destruct (DL x Hx) as [f [Hfx Hle]]. rewrite Hd.
+    destruct (N.eqb_spec (efile x) (t_head t1)) as [Q|Q]; [|eauto].
+    exists (f_write hf data). split; [reflexivity|]. rewrite Q in Hfx. assert (f = hf) by congruence. subst f. exact Hle.
+  - intros id Hid. change (t_tail t2) with (t_tail t1) in Hid. change (t_head t2) with (t_head t1) in Hid.
+    destruct (DN id Hid) as [[g Hg] Hop]. split; [|exact Hop]. unfold has. rewrite Hd. destruct (id =? t_head t1); eauto.
+  - intros id Hid. destruct (DO id Hid) as [g Hg]. unfold has. rewrite Hd. destruct (id =? t_head t1); eauto.
+  - exact DP.
+Qed.
+
+(* roll over to a new data file and put one item into it *)
+Lemma dinv_advance_commit_one maxsz t1 t2 data e c t3 b3 :
+  DInv maxsz t1 -> t_head t1 + 1 < 65536 -> advance_head t1 = Ok t2 ->
+  commit t2 (mkB data (enc_entry e) c) = Ok (t3, b3) -> IdxInv maxsz t3 ->
+  entry_wf e = true -> efile e = t_head t2 -> eoff e = N.of_nat (length data) ->
+  DInv maxsz t3.
+Proof.
+  intros HD Hhd EA EC HI3 Hwe Hef Heo.
+  unfold advance_head in EA. destruct (do_sync t1) as [ts|] eqn:ES; [|discriminate].
+  pose proof (dinv_do_sync _ _ _ HD ES) as (HIs & DG & DH & DI & DJ & DL & DN & DO & DP).
+  pose proof (do_sync_core _ _ ES) as Cs. unfold core in Cs. inversion Cs as [[P1 P2 P3 P4 P5 P6 P7 P8 P9]].
+  assert (Hsall : synced_of ts = rest_of ts).
+  { apply (synced_all maxsz); [exact HIs|]. rewrite P8, P7. reflexivity. }
+  cbv zeta in EA. rewrite P4 in EA.
+  assert (Hm : (t_head t1 + 1) mod two32 = t_head t1 + 1) by (apply N.mod_small; unfold two32; lia).
+  rewrite Hm in EA. set (nx := t_head t1 + 1) in *.
+  assert (Hnot : existsb (N.eqb nx) (t_open ts) = false).
+  { match goal with |- ?X = false => destruct X eqn:Ex; [|reflexivity] end.
+    apply existsb_eqb_In in Ex. apply DP in Ex. subst nx. lia. }
+  unfold open_trunc in EA. rewrite Hnot in EA.
+  destruct DJ as [hfs [Hfs Hszs]]. rewrite P4 in Hfs.
+  unfold sync_head, data_upd in EA. cbn [w_open w_data t_head t_data] in EA. rewrite P4 in EA.
+  rewrite dget_dset_other in EA by (subst nx; lia). rewrite Hfs in EA.
+  inversion EA; subst t2; clear EA. cbn [w_counters t_head] in Hef.
+  unfold commit, data_upd in EC. cbn [w_counters w_open w_data t_head t_data b_data b_index b_cur] in EC.
+  rewrite dget_dset_other in EC by (subst nx; lia). rewrite dget_dset_same in EC.
+  inversion EC; subst t3 b3; clear EC.
+  set (t3 := w_counters _ _ _ _ _ _ _) in *.
+  set (nf := f_write f_empty data) in *.
+  assert (Hd : forall id, dget id (t_data t3) = if id =? nx then Some nf else if id =? t_head t1 then Some (f_sync hfs) else dget id (t_data ts)).
+  { intros id. subst t3. cbn [w_counters w_index w_data w_open t_data]. rewrite !dget_dset.
+    destruct (id =? nx); [reflexivity|]. destruct (id =? t_head t1); [reflexivity|]. destruct (N.eqb_spec id nx); reflexivity. }
+  assert (Hop : forall id, In id (t_open t3) <-> id = nx \/ In id (t_open ts)).
+  { intros id. subst t3. cbn [w_counters w_index w_data w_open t_open In]. split; intros [A|A]; auto. }
+  assert (Hhd3 : t_head t3 = nx) by reflexivity.
+  assert (Htl3 : t_tail t3 = t_tail ts) by reflexivity.
+  destruct (nsynced_le _ _ HIs) as (Hns & Hne & Hm6).
+  assert (Hr : rest_of t3 = rest_of ts ++ [e]).
+  { unfold rest_of. subst t3. cbn [w_counters w_index w_data w_open t_index f_write fbytes].
+    rewrite entries_of_app by exact Hm6. rewrite entries_of_one by exact Hwe.
+    destruct (entries_of (fbytes (t_index ts))); [congruence|reflexivity]. }
+  assert (Hsy : synced_of t3 = rest_of ts).
+  { unfold synced_of. rewrite Hr. change (nsynced t3) with (nsynced ts).
+    assert (nsynced ts = length (rest_of ts)).
+    { unfold synced_of in Hsall. apply (f_equal (@length entry)) in Hsall. rewrite firstn_length in Hsall. lia. }
+    rewrite H. rewrite firstn_app, Nat.sub_diag, firstn_all. cbn [firstn]. apply app_nil_r. }
+  destruct (inv_monotone _ _ HIs) as [Mt Mr]. rewrite P4 in Mt, Mr.
+  assert (Hold : forall x, In x (rest_of ts) -> exists f, dget (efile x) (t_data t3) = Some f /\ eoff x <= fsize f /\ eoff x <= N.of_nat (fdur f)).
+  { intros x Hx. destruct (Mr x Hx) as [_ Mx]. rewrite <- Hsall in Hx. destruct (DL x Hx) as [f [Hf Hle]].
+    pose proof (DI _ _ Hf) as Hw. rewrite Hd.
+    destruct (N.eqb_spec (efile x) nx) as [Q|Q]; [subst nx; lia|].
+    destruct (N.eqb_spec (efile x) (t_head t1)) as [Q1|Q1].
+    - rewrite Q1, Hfs in Hf. injection Hf as <-. exists (f_sync hfs). split; [reflexivity|].
+      change (fsize (f_sync hfs)) with (N.of_nat (flen hfs)). change (fdur (f_sync hfs)) with (flen hfs). split; lia.
+    - exists f. split; [exact Hf|]. unfold fsize. split; lia. }
+  assert (Hnf : fsize nf = N.of_nat (length data)) by (subst nf; reflexivity).
+  refine (conj HI3 (conj _ (conj _ (conj _ (conj _ (conj _ (conj _ (conj _ _)))))))).
+  - intros x Hx. rewrite Hr in Hx. apply in_app_or in Hx. destruct Hx as [Hx|[<-|[]]].
+    + destruct (Hold x Hx) as (f & A & B & _). exists f. split; assumption.
+    + rewrite Hef, Hd, N.eqb_refl. exists nf. split; [reflexivity|]. rewrite Hnf, Heo. lia.
+  - intros id f Hg Hne'. rewrite Hhd3 in Hne'. rewrite Hd in Hg. destruct (N.eqb_spec id nx); [contradiction|].
+    destruct (N.eqb_spec id (t_head t1)) as [Q|Q]; [injection Hg as <-; reflexivity|].
+    apply (DH _ _ Hg). rewrite P4. exact Q.
+  - intros id f Hg. rewrite Hd in Hg. destruct (N.eqb_spec id nx); [injection Hg as <-; cbn; lia|].
+    destruct (N.eqb_spec id (t_head t1)); [injection Hg as <-; unfold f_sync, flen; cbn [fdur fbytes]; lia|apply (DI _ _ Hg)].
+  - exists nf. rewrite Hhd3, Hd, N.eqb_refl. split; [reflexivity|]. rewrite Hnf. reflexivity.
+  - intros x Hx. rewrite Hsy in Hx. destruct (Hold x Hx) as (f & A & _ & C). exists f. split; assumption.
+  - intros id [Rlo Rhi]. rewrite Htl3 in Rlo. rewrite Hhd3 in Rhi.
+    destruct (N.eq_dec id nx) as [->|Ne].
+    + split; [exists nf; rewrite Hd, N.eqb_refl; reflexivity | apply Hop; left; reflexivity].
+    + destruct (DN id) as [[g Hg] Hoi]; [rewrite P4; subst nx; lia|]. split; [|apply Hop; right; exact Hoi].
+      unfold has. rewrite Hd. destruct (N.eqb_spec id nx); [contradiction|]. destruct (id =? t_head t1); eauto.
+  - intros id Hid. apply Hop in Hid. unfold has. rewrite Hd. destruct Hid as [->|Hid]; [rewrite N.eqb_refl; eauto|].
+    destruct (DO id Hid) as [g Hg]. destruct (id =? nx); [eauto|]. destruct (id =? t_head t1); eauto.
+  - intros id Hid. apply Hop in Hid. rewrite Hhd3. destruct Hid as [->|Hid]; [lia|]. apply DP in Hid. rewrite P4 in Hid. subst nx. lia.
+Qed.
+
+Lemma commit_ok t b : has t (t_head t) -> exists tc, commit t b = Ok (tc, mkB [] [] (b_cur b)).
+Proof. intros [f Hf]. unfold commit, data_upd. rewrite Hf. eauto. Qed.
+
+Lemma advance_head_has t t' : FW t -> advance_head t = Ok t' -> has t' (t_head t').
+Proof.
+  intros HF. destruct (do_sync_ok t HF) as (t1 & E1 & [O1 H1] & _ & _).
+  unfold advance_head. rewrite E1. cbv zeta.
+  set (nx := (t_head t1 + 1) mod two32).
+  destruct (od_open_trunc t1 nx O1) as (O2 & H2 & K2).
+  destruct (sync_head (open_trunc t1 nx)) as [t3|] eqn:E3; [|discriminate].
+  intros H. inversion H; subst t'; clear H. cbn [w_counters t_head].
+  unfold sync_head in E3. destruct (od_data_upd _ _ _ _ E3 O2) as (_ & _ & K3 & _).
+  eapply has_ext; [|apply K3; exact H2]. reflexivity.
+Qed.
+
+
+Definition BD (maxsz : N) (tb : table * batch) : Prop :=
+  BInv maxsz tb /\ exists tc bc, commit (fst tb) (snd tb) = Ok (tc, bc) /\ DInv maxsz tc.
+
+Lemma dinv_fw maxsz t : DInv maxsz t -> FW t.
+Proof. intros (_ & _ & _ & _ & [hf [Hf _]] & _ & _ & DO & _). split; [exact DO|exists hf; exact Hf]. Qed.
+
+Lemma bd_append_item maxsz encode t b blob t' b' :
+  maxsz < two32 -> BD maxsz (t, b) ->
+  N.of_nat (length (encode blob)) <= maxsz -> t_head t + 1 < 65536 -> b_cur b + 1 < two32 ->
+  append_item maxsz encode (t, b) blob = Ok (t', b') -> BD maxsz (t', b').
+Proof.
+  intros Hmax [HB (tc & bc & ECm & HDc)] Hsz Hhd Hcur E. cbn [fst snd] in ECm.
+  destruct (binv_append_item maxsz encode t b blob t' b' Hmax HB Hsz Hhd Hcur E) as (HB' & Hc' & Hh').
+  split; [exact HB'|]. cbn [fst snd].
+  pose proof HB as HB0. unfold BInv in HB0. cbn [fst snd] in HB0. pose proof (inv_hb_le _ _ _ _ _ _ _ _ _ _ HB0) as Hio.
+  destruct (commit_core _ _ _ _ ECm) as [Cc Hbc]. subst bc.
+  pose proof Cc as Cc'. unfold vcore, core in Cc'. inversion Cc' as [[Q1 Q2 Q3 Q4 Q5 Q6 Q7 Q8 Q9]].
+  unfold append_item in E. cbv zeta in E.
+  set (data := encode blob) in *. set (isz := N.of_nat (length data)) in *.
+  set (ioff := t_headbytes t + N.of_nat (length (b_data b))) in *.
+  destruct (N.ltb_spec maxsz (ioff + isz)) as [R|R].
+  - (* roll over *)
+    rewrite ECm in E. cbn [fst snd] in E.
+    destruct (advance_head tc) as [t2|] eqn:EA; [|discriminate]. inversion E; subst t' b'; clear E.
+    cbn [b_data b_index b_cur app] in *.
+    pose proof (advance_head_core _ _ EA) as C2. unfold core in C2. inversion C2 as [[P1 P2 P3 P4 P5 P6 P7 P8 P9]].
+    assert (Hm : (t_head tc + 1) mod two32 = t_head tc + 1) by (apply N.mod_small; unfold two32; lia).
+    destruct (commit_ok t2 (mkB data (enc_entry (mkE (t_head t2) ((0 + isz) mod two32))) (b_cur b + 1))) as [t3 E3].
+    { apply (advance_head_has tc); [apply (dinv_fw maxsz); exact HDc|exact EA]. }
+    exists t3, (mkB [] [] (b_cur b + 1)). split; [exact E3|].
+    assert (HI3 : IdxInv maxsz t3).
+    { destruct (commit_core _ _ _ _ E3) as [C3 _]. unfold IdxInv. rewrite C3. exact HB'. }
+    assert (Hi : (0 + isz) mod two32 = isz) by (rewrite N.add_0_l; apply N.mod_small; lia).
+    eapply (dinv_advance_commit_one maxsz tc t2 data); try exact EA; try exact E3; try assumption.
+    + lia.
+    + unfold entry_wf. cbn [efile eoff]. rewrite Hi, P4, Hm. apply andb_true_intro. split; apply N.ltb_lt; lia.
+    + reflexivity.
+  - (* same file *)
+    inversion E; subst t' b'; clear E.
+    assert (Hm : (ioff + isz) mod two32 = ioff + isz) by (apply N.mod_small; lia).
+    set (e := mkE (t_head t) ((ioff + isz) mod two32)) in *.
+    destruct (commit_ok tc (mkB data (enc_entry e) (b_cur b + 1))) as [t3 E3].
+    { apply (dinv_fw maxsz) in HDc. exact (proj2 HDc). }
+    exists t3, (mkB [] [] (b_cur b + 1)). split.
+    + rewrite <- (commit_commit t b tc _ data (enc_entry e) (b_cur b + 1) ECm). exact E3.
+    + assert (HI3 : IdxInv maxsz t3).
+      { assert (E3' : commit t (mkB (b_data b ++ data) (b_index b ++ enc_entry e) (b_cur b + 1)) = Ok (t3, mkB [] [] (b_cur b + 1))).
+        { rewrite <- (commit_commit t b tc _ data (enc_entry e) (b_cur b + 1) ECm). exact E3. }
+        destruct (commit_core _ _ _ _ E3') as [C3 _]. unfold IdxInv. rewrite C3. exact HB'. }
+      eapply (dinv_commit_one maxsz tc data e); try exact E3; try assumption.
+      * unfold entry_wf, e. cbn [efile eoff]. rewrite Hm. apply andb_true_intro. split; apply N.ltb_lt; lia.
+      * unfold e. cbn [efile]. symmetry. exact Q4.
+      * unfold e. cbn [eoff]. rewrite Hm, Q6. reflexivity.
+Qed.
+
+Lemma bd_append_items maxsz encode blobs : forall t b t' b',
+  maxsz < two32 -> BD maxsz (t, b) ->
+  Forall (fun blob => N.of_nat (length (encode blob)) <= maxsz) blobs ->
+  t_head t + N.of_nat (length blobs) < 65536 -> b_cur b + N.of_nat (length blobs) < two32 ->
+  append_items maxsz encode (t, b) blobs = Ok (t', b') -> BD maxsz (t', b').
+Proof.
+  induction blobs as [|x r IH]; intros t b t' b' Hmax HB HF Hh Hc E.
+  - inversion E; subst. exact HB.
+  - cbn [append_items] in E. destruct (append_item maxsz encode (t, b) x) as [[t1 b1]|] eqn:E1; [|discriminate].
+    inversion HF as [|? ? Hx Hr]; subst. cbn [length] in Hh, Hc.
+    pose proof (bd_append_item _ _ _ _ _ _ _ Hmax HB Hx ltac:(lia) ltac:(lia) E1) as B1.
+    destruct (binv_append_item maxsz encode _ _ _ _ _ Hmax (proj1 HB) Hx ltac:(lia) ltac:(lia) E1) as (_ & Cc & Hd).
+    eapply IH; eauto; lia.
+Qed.
+
+Lemma dinv_ext maxsz t t' :
+  core t' = core t -> t_open t' = t_open t -> (forall id, dget id (t_data t') = dget id (t_data t)) ->
+  DInv maxsz t -> DInv maxsz t'.
+Proof.
+  intros C HO Hd (HI & DG & DH & DI & DJ & DL & DN & DO & DP).
+  assert (HI' : IdxInv maxsz t') by (eapply inv_core; eauto).
+  apply core_proj in C. destruct C as (C1 & C2 & C3 & C4 & C5 & C6 & C7 & C8 & C9).
+  assert (Hr : rest_of t' = rest_of t) by (unfold rest_of; rewrite C7; reflexivity).
+  assert (Hs : synced_of t' = synced_of t) by (unfold synced_of, nsynced; rewrite Hr, C8; reflexivity).
+  refine (conj HI' (conj _ (conj _ (conj _ (conj _ (conj _ (conj _ (conj _ _)))))))).
+  - intros e He. rewrite Hr in He. rewrite Hd. apply DG. exact He.
+  - intros id f Hg Hne. rewrite Hd in Hg. rewrite C4 in Hne. apply (DH _ _ Hg Hne).
+  - intros id f Hg. rewrite Hd in Hg. apply (DI _ _ Hg).
+  - rewrite C4, C6, Hd. exact DJ.
+  - intros e He. rewrite Hs in He. rewrite Hd. apply DL. exact He.
+  - intros id Hid. rewrite C5, C4 in Hid. destruct (DN id Hid) as [[g Hg] Hop]. split; [exists g; rewrite Hd; exact Hg|rewrite HO; exact Hop].
+  - intros id Hid. rewrite HO in Hid. destruct (DO id Hid) as [g Hg]. exists g. rewrite Hd. exact Hg.
+  - intros id Hid. rewrite HO in Hid. rewrite C4. apply DP. exact Hid.
+Qed.
+
+Lemma dinv_op_append maxsz encode t blobs t' :
+  maxsz < two32 -> DInv maxsz t ->
+  Forall (fun blob => N.of_nat (length (encode blob)) <= maxsz) blobs ->
+  t_head t + N.of_nat (length blobs) < 65536 -> t_items t + N.of_nat (length blobs) < two32 ->
+  op_append maxsz encode t blobs = Ok t' -> DInv maxsz t'.
+Proof.
+  intros Hmax HD HF Hh Hc E. unfold op_append in E.
+  destruct (append_items maxsz encode (t, mkB [] [] (t_items t)) blobs) as [[t1 b1]|] eqn:E1; [|discriminate].
+  cbn [fst snd] in E. destruct (commit t1 b1) as [[t2 b2]|] eqn:E2; [|discriminate].
+  inversion E; subst; clear E.
+  assert (HB0 : BD maxsz (t, mkB [] [] (t_items t))).
+  { split; [apply binv_start; exact (proj1 HD)|]. cbn [fst snd].
+    destruct (commit_ok t (mkB [] [] (t_items t))) as [tc Ec]; [exact (proj2 (dinv_fw _ _ HD))|].
+    exists tc, (mkB [] [] (t_items t)). split; [exact Ec|].
+    (* committing the empty batch changes nothing observable *)
+    pose proof HD as (_ & _ & _ & _ & [hf [Hf _]] & _). unfold commit, data_upd in Ec. rewrite Hf in Ec.
+    inversion Ec; subst tc; clear Ec. cbn [b_data b_index b_cur length N.of_nat].
+    apply (dinv_ext maxsz t); [| |  |exact HD].
+    - unfold core. cbn [w_counters w_index w_data t_items t_offset t_hidden t_head t_tail t_headbytes t_index t_mcur t_msyn].
+      unfold f_write. rewrite app_nil_r, file_eta, N.add_0_r. reflexivity.
+    - reflexivity.
+    - intros id. cbn [w_counters w_index w_data t_data]. rewrite dget_dset. unfold f_write. rewrite app_nil_r, file_eta.
+      destruct (N.eqb_spec id (t_head t)) as [->|Ne]; [symmetry; exact Hf|reflexivity]. }
+  pose proof (bd_append_items maxsz encode blobs _ _ _ _ Hmax HB0 HF Hh Hc E1) as [_ (tc & bc & Ec & HDc)].
+  cbn [fst snd] in Ec. rewrite E2 in Ec. inversion Ec; subst. exact HDc.
+Qed.
+
+
+(* ---------- every operation, and histories with crashes inside ---------- *)
+Section Hist.
+Variable maxsz : N.
+Variable encode : list N -> list N.
+
+Lemma dinv_step t o t' :
+  maxsz < two32 -> DInv maxsz t -> op_guard maxsz encode t o -> step maxsz encode t o = Ok t' -> DInv maxsz t'.
+Proof.
+  intros Hmax HD HG E. destruct o as [blobs|n|n| | |]; cbn [step op_guard] in *.
+  - destruct HG as (G1 & G2 & G3). eapply dinv_op_append; eauto.
+  - destruct HG as (G1 & G2). eapply dinv_truncate_head; eauto.
+  - destruct HG as (G1 & G2). eapply dinv_truncate_tail; eauto.
+  - eapply dinv_do_sync; eauto.
+  - inversion E; subst. apply dinv_sync_index. exact HD.
+  - eapply dinv_sync_head; [|exact E]. apply dinv_sync_index. exact HD.
+Qed.
+
+(* a history step: an operation of the table, or a crash (any cut of every file, either metadata
+   record) followed by newTable *)
+Inductive hop := HOp (o : op) | HCrash (ci : nat * nat) (cd : N -> nat * nat) (cm : bool).
+
+Definition hstep (t : table) (h : hop) : res table :=
+  match h with
+  | HOp o => step maxsz encode t o
+  | HCrash ci cd cm => crash_reopen true t ci cd cm
+  end.
+Definition hnext (t : table) (h : hop) : table := match hstep t h with Ok t' => t' | Err _ => t end.
+Definition hguard (t : table) (h : hop) : Prop :=
+  match h with
+  | HOp o => op_guard maxsz encode t o
+  | HCrash ci cd _ => cut_ok t ci cd
+  end.
+Fixpoint hrun (t : table) (hs : list hop) : table :=
+  match hs with [] => t | h :: r => hrun (hnext t h) r end.
+Fixpoint hguarded (t : table) (hs : list hop) : Prop :=
+  match hs with [] => True | h :: r => hguard t h /\ hguarded (hnext t h) r end.
+
+Lemma dinv_hnext t h : maxsz < two32 -> DInv maxsz t -> hguard t h -> DInv maxsz (hnext t h).
+Proof.
+  intros Hmax HD HG. unfold hnext. destruct h as [o|ci cd cm]; cbn [hstep hguard] in *.
+  - destruct (step maxsz encode t o) as [t'|] eqn:E; [eapply dinv_step; eauto|exact HD].
+  - destruct (open_crash_ok maxsz t ci cd cm HD HG) as (t' & E & HD' & _). rewrite E. exact HD'.
+Qed.
+
+Lemma dinv_hrun hs : forall t, maxsz < two32 -> DInv maxsz t -> hguarded t hs -> DInv maxsz (hrun t hs).
+Proof.
+  induction hs as [|h r IH]; intros t Hmax HD HG; [exact HD|].
+  destruct HG as [G1 G2]. cbn [hrun]. apply IH; [exact Hmax| |exact G2]. apply dinv_hnext; assumption.
+Qed.
+
+Lemma dinv_init clamp t0 : init clamp = Ok t0 -> DInv maxsz t0.
+Proof.
+  intros H. pose proof (inv_init maxsz clamp t0 H) as HI.
+  destruct clamp; vm_compute in H; inversion H; subst; clear H;
+  (refine (conj HI (conj _ (conj _ (conj _ (conj _ (conj _ (conj _ (conj _ _))))))));
+   [ intros e [] 
+   | intros id f Hg _; cbn [t_data dget] in Hg; destruct (0 =? id); inversion Hg; reflexivity
+   | intros id f Hg; cbn [t_data dget] in Hg; destruct (0 =? id); inversion Hg; cbn; lia
+   | eexists; split; reflexivity
+   | intros e []
+   | intros id Hid; cbn [t_tail t_head] in Hid; assert (id = 0) by lia; subst id; split; [eexists; reflexivity|left; reflexivity]
+   | intros id [<-|[]]; eexists; reflexivity
+   | intros id [<-|[]]; cbn; lia ]).
+Qed.
+
+(* THE TABLE THEOREM OVER HISTORIES.  From the empty table, after any guarded history of appends,
+   truncations, syncs and crashes+reopens (every cut, every zero fill, either metadata record at every
+   crash), the table satisfies the full invariant; hence one more crash reopens again, to exactly the
+   entries below the flush offset, with a well-formed range. *)
+Theorem table_crash_safe t0 hs ci cd (cm : bool) :
+  maxsz < two32 -> init true = Ok t0 -> hguarded t0 hs ->
+  let t := hrun t0 hs in
+  cut_ok t ci cd ->
+  exists t', crash_reopen true t ci cd cm = Ok t' /\ DInv maxsz t' /\
+    t_hidden t' <= t_items t' /\ t_offset t' = t_offset t /\
+    t_items t' = t_offset t + N.of_nat (length (synced_of t)) /\ t_items t' <= t_items t /\
+    rest_of t' = synced_of t /\
+    (forall e, In e (synced_of t) ->
+       exists f f', dget (efile e) (t_data t) = Some f /\ dget (efile e) (t_data t') = Some f' /\
+                    eoff e <= fsize f' /\
+                    firstn (N.to_nat (eoff e)) (fbytes f') = firstn (N.to_nat (eoff e)) (fbytes f)).
+Proof.
+  intros Hmax Hi HG t Hcut.
+  assert (HD : DInv maxsz t) by (apply dinv_hrun; [exact Hmax|eapply dinv_init; eauto|exact HG]).
+  destruct (open_crash_ok maxsz t ci cd cm HD Hcut) as (t' & E & HD' & O1 & O2 & O3 & O4 & O5 & O6 & O7 & _).
+  exists t'. split; [exact E|]. split; [exact HD'|].
+  destruct (inv_counters _ _ (proj1 HD')) as [_ Hh].
+  destruct (synced_facts maxsz t (proj1 HD)) as (_ & _ & _ & _ & _ & _ & _ & _ & Hle & _).
+  repeat split; try assumption. rewrite O3. exact Hle.
+Qed.
+
+(* a completed Sync covers everything: a crash right after it loses no item *)
+Theorem sync_then_crash_keeps_all t t1 ci cd (cm : bool) t' :
+  DInv maxsz t -> step maxsz encode t OSync = Ok t1 -> cut_ok t1 ci cd ->
+  crash_reopen true t1 ci cd cm = Ok t' -> t_items t' = t_items t1.
+Proof.
+  intros HD E Hcut Eo. cbn [step] in E. unfold op_sync in E.
+  pose proof (dinv_do_sync _ _ _ HD E) as HD1.
+  destruct (open_crash_ok maxsz t1 ci cd cm HD1 Hcut) as (t'' & E'' & _ & _ & _ & O3 & _).
+  rewrite Eo in E''. inversion E''; subst t''. rewrite O3.
+  pose proof (do_sync_core _ _ E) as C. unfold core in C. inversion C as [[P1 P2 P3 P4 P5 P6 P7 P8 P9]].
+  rewrite (synced_all maxsz t1 (proj1 HD1)) by (rewrite P8, P7; reflexivity).
+  pose proof (proj1 HD1) as HI1. unfold IdxInv, core, IdxInvC in HI1. inv_destruct HI1.
+  rewrite (rest_of_inv t1 rest Hb Hwf Ht Ho). lia.
+Qed.
+
+End Hist.
